@@ -848,14 +848,6 @@ class ClickHouseQueryBuilder(QueryBuilder):
         newone._distinct_on = copy(self._distinct_on)
         return newone
 
-    def replace_table(self, current_table: Optional[Table], new_table: Optional[Table]) -> "ClickHouseQueryBuilder":
-        query = super().replace_table(current_table, new_table)
-        query._distinct_on = [term.replace_table(current_table, new_table) for term in query._distinct_on]
-        if query._limit_by:
-            n, offset, by = query._limit_by
-            query._limit_by = (n, offset, [term.replace_table(current_table, new_table) for term in by])
-        return query
-
     @builder
     def final(self) -> "ClickHouseQueryBuilder":
         self._final = True
@@ -936,6 +928,7 @@ class ClickHouseQueryBuilder(QueryBuilder):
 
     def replace_table(self, current_table: Optional[Table], new_table: Optional[Table]) -> "ClickHouseQueryBuilder":
         newone = super().replace_table(current_table, new_table)
+        newone._distinct_on = [term.replace_table(current_table, new_table) for term in self._distinct_on]
         if self._limit_by:
             newone._limit_by = (
                 self._limit_by[0],
